@@ -106,6 +106,22 @@ def _record_src_hash(tok):
         open(fn, "w").write(cur)
 
 
+import contextlib
+
+
+@contextlib.contextmanager
+def build_lock():
+    """Serialises everything that writes into the shared cargo target directories under HARNESS."""
+    os.makedirs(WORK, exist_ok=True)
+    lock = open(os.path.join(HARNESS, ".build.lock"), "w")
+    fcntl.flock(lock, fcntl.LOCK_EX)
+    try:
+        yield
+    finally:
+        fcntl.flock(lock, fcntl.LOCK_UN)
+        lock.close()
+
+
 def guard_target(target_dir, cwd, packages):
     """For builds outside build_harness / build_repo_bins that cache crates of the tree under test in `target_dir`."""
     _record_src_hash(_force_rebuild_if_sources_changed(target_dir, cwd, packages))
@@ -135,10 +151,15 @@ def build_harness():
             raise ToolError("harness build failed against %s" % REPO)
         _record_src_hash(tok)
         log("[build] harness built against %s in %.1fs" % (REPO, time.time() - t0))
+        # a private copy, taken under the lock: another run (possibly for another tree) may rebuild target/debug/vh at any time
+        mine = os.path.join(WORK, "vh")
+        tmp = mine + ".tmp%d" % os.getpid()
+        shutil.copy2(os.path.join(HARNESS, "target", "debug", "vh"), tmp)
+        os.replace(tmp, mine)
     finally:
         fcntl.flock(lock, fcntl.LOCK_UN)
         lock.close()
-    return os.path.join(HARNESS, "target", "debug", "vh")
+    return mine
 
 
 def build_repo_bins(packages):
@@ -160,10 +181,19 @@ def build_repo_bins(packages):
             log(p.stdout[-6000:])
             raise ToolError("building %s from %s failed" % (packages, REPO))
         _record_src_hash(tok)
+        # private copies, taken under the lock (see build_harness)
+        mine = os.path.join(WORK, "repo-bins")
+        os.makedirs(mine, exist_ok=True)
+        for b in ("varlink", "varlink-certification", "varlink-rust-generator"):
+            src = os.path.join(tdir, "debug", b)
+            if os.path.exists(src):
+                tmp = os.path.join(mine, b + ".tmp%d" % os.getpid())
+                shutil.copy2(src, tmp)
+                os.replace(tmp, os.path.join(mine, b))
     finally:
         fcntl.flock(lock, fcntl.LOCK_UN)
         lock.close()
-    return os.path.join(tdir, "debug")
+    return mine
 
 
 def run_vh(vh, args, cases, timeout=1800, env=None, hang_is_failure=False, death_is_failure=False):
